@@ -230,7 +230,7 @@ const zeroIterRaw = `func (a *array) zeroIter(it Iterator) (err error){
 		for i, err = it.Next(); err == nil; i, err = it.Next(){
 			val := reflect.NewAt(a.t.Type, storage.ElementAt(i, unsafe.Pointer(&a.Header.Raw[0]), a.t.Size()))
 			val = reflect.Indirect(val)
-			val.Set(reflect.Zero(a.t))
+			val.Set(reflect.Zero(a.t.Type))
 		}
 		err = handleNoOp(err)
 	}
